@@ -31,11 +31,11 @@ func c16Replies(c *vk.Ctx) {
 	for code := 0; code < pow(harness.C16Msgs, 2); code++ {
 		jobs = append(jobs, Job{Harness: "StorageSeq", Bound: -1, BudgetS: 60, FallbackDelay: 3, Params: map[string]int{"store": 0, "L": 2, "code": code}})
 	}
-	core := []int{0, 2, 4, 6, 8, 10}
+	core := []int{0, 2, 4, 6, 8, 10, 12}
 	for _, a := range core {
 		for _, b := range core {
 			for _, d := range core {
-				jobs = append(jobs, Job{Harness: "StorageSeq", Bound: -1, BudgetS: 60, FallbackDelay: 3, Params: map[string]int{"store": 0, "L": 3, "code": a + 12*b + 144*d}})
+				jobs = append(jobs, Job{Harness: "StorageSeq", Bound: -1, BudgetS: 60, FallbackDelay: 3, Params: map[string]int{"store": 0, "L": 3, "code": a + harness.C16Msgs*b + harness.C16Msgs*harness.C16Msgs*d}})
 			}
 		}
 	}
@@ -50,7 +50,7 @@ func c16Replies(c *vk.Ctx) {
 	for code := 0; code < pow(harness.C16Msgs, 2); code++ {
 		jobs = append(jobs, Job{Harness: "StorageSeq", Bound: vk.Pick(c, 1, 3), Delay: true, BudgetS: 60, Params: map[string]int{"store": 1, "L": 2, "code": code}})
 	}
-	c.P.Rule = "E1: every client message sequence up to length 3/4 over 12 messages (EVENT new / same again / newer version / older version / deletion request / ephemeral; REQ all / filtered / limit 1; COUNT; CLOSE; AUTH) through the real CacheHandler.ServeNostr (canonical schedule; all schedules for every length-2 sequence and a 6-message core at length 3) and up to length 2/3 through the real SQLite handler (in-memory database, stepwise with quiescence after each message; pipelined with a delay bound); oracle: the reply stream is the concatenation, in request order, of the per-request replies"
+	c.P.Rule = "E1: every client message sequence up to length 3/4 over 13 messages (EVENT new / same again / newer version / older version / deletion request / ephemeral; REQ all / filtered / limit 1 / with an undecodable id, for which the SQLite query fails; COUNT; CLOSE; AUTH) through the real CacheHandler.ServeNostr (canonical schedule; all schedules for every length-2 sequence and a 7-message core at length 3) and up to length 2/3 through the real SQLite handler (in-memory database, stepwise with quiescence after each message; pipelined with a delay bound); oracle: the reply stream is the concatenation, in request order, of the per-request replies"
 	res := runJobs(c, jobs)
 	for i, r := range res {
 		if i%700 == 0 {
